@@ -10,7 +10,7 @@ from emmet.config import Config
 PROP_ID = 'C20'
 RULE = ("case = (kind ∈ options/snippets/variables, type, syntax, presence bits of the six layers "
         "[built-in, type defaults, syntax defaults, global type, global syntax, call]) — the complete 2^6 lattice for every known syntax of "
-        "both types, `xhtml` and unknown syntax names, plus the markup/html lattice with type and syntax left out of the call config (exhaustive; built-in layers are injected into deep copies of DEFAULT_CONFIG / "
+        "both types, `xhtml` and unknown syntax names, plus the lattices with type and syntax, or only the syntax, left out of the call config (exhaustive; built-in layers are injected into deep copies of DEFAULT_CONFIG / "
         "SYNTAX_CONFIG swapped in for one case); plus natural keys of the shipped tables ('!!!', 'a', 'tm', selfClosingStyle, jsx.enabled, "
         "stylesheet.after/between) × 2^3 caller layers. Oracle: the key resolves to the sentinel of the most specific defining layer, every other "
         "key equals the baseline, the same winner is visible through expand(), and deep snapshots of all built-in tables and caller dicts are "
@@ -60,6 +60,11 @@ def check_lattice(case, rec):
     # baseline: same type/syntax, no caller layers, original tables
     with guard():
         base = Config({'type': typ, 'syntax': syntax}, {})
+        if case.get('implicit') == 'syntax':
+            probe = Config({'type': typ}, {})
+            if probe.syntax != syntax or probe.type != typ:
+                rec.fail('default-syntax-for-type', 'Config({"type": %r}) reports type=%r syntax=%r, expected the type\'s default syntax %r' % (typ, probe.type, probe.syntax, syntax))
+                return
     base_table = dict(getattr(base, kind))
     try:
         dc = copy.deepcopy(orig_default)
@@ -86,7 +91,10 @@ def check_lattice(case, rec):
         if bits[4]:
             glob.setdefault(syntax, {}).setdefault(kind, {})[key] = val(4)
         # 'implicit': the caller leaves type and syntax out (defaults markup/html) — possibly passing an entirely empty config
-        user = {} if case.get('implicit') else {'type': typ, 'syntax': syntax}
+        if case.get('implicit') == 'syntax':
+            user = {'type': typ}        # syntax left out: the type's default syntax (html / css) applies
+        else:
+            user = {} if case.get('implicit') else {'type': typ, 'syntax': syntax}
         if bits[5]:
             user[kind] = {key: val(5)}
         C.DEFAULT_CONFIG, C.SYNTAX_CONFIG = dc, sc
@@ -277,6 +285,9 @@ def run(ctx):
     ctx.run_cases('lattice', lattice())
     ctx.run_cases('lattice', ({'kind': kind, 'type': 'markup', 'syntax': 'html', 'layers': list(bits), 'implicit': True}
                               for kind in ('options', 'snippets', 'variables') for bits in itertools.product([False, True], repeat=6)))
+    ctx.run_cases('lattice', ({'kind': kind, 'type': typ, 'syntax': syn, 'layers': list(bits), 'implicit': 'syntax'}
+                              for typ, syn in (('markup', 'html'), ('stylesheet', 'css')) for kind in ('options', 'snippets', 'variables')
+                              for bits in itertools.product([False, True], repeat=6)))
     ctx.exhaustive('2^6 layer-presence subsets × {options, snippets, variables} × %d (type, syntax) pairs' % len(pairs))
     def natural():
         for kind, typ, syntax, key in NATURAL:
